@@ -3,7 +3,7 @@ package main
 // C05 (package dependency): rendering a parsed dependency reaches a fixpoint in one step and loses nothing;
 // architecture names survive ParseArch -> String -> ParseArch.
 // Bounded stand-in: every concatenation of up to 5 / 6 tokens of a 16-token alphabet, and every architecture name of
-// 1..4 components over {any, all, gnu, linux, a, b}, on the real code.
+// 1..4 components over {any, all, gnu, linux, a, b, <empty>}, on the real code.
 
 import (
 	"fmt"
@@ -181,22 +181,24 @@ func main() {
 	}
 	depDistinct := distinct
 
-	comps := []string{"any", "all", "gnu", "linux", "a", "b"}
-	names := []string{}
-	var build func(prefix string, left int)
-	build = func(prefix string, left int) {
+	comps := []string{"any", "all", "gnu", "linux", "a", "b", ""} // "" : names with an empty component ("-a", "a--b", "")
+	names := []string{""}
+	var build func(prefix string, first bool, left int)
+	build = func(prefix string, first bool, left int) {
 		for _, c := range comps {
 			n := c
-			if prefix != "" {
+			if !first {
 				n = prefix + "-" + c
 			}
-			names = append(names, n)
+			if n != "" {
+				names = append(names, n)
+			}
 			if left > 1 {
-				build(n, left-1)
+				build(n, false, left-1)
 			}
 		}
 	}
-	build("", 4)
+	build("", true, 4)
 	parallel(int64(len(names)), func(i int64) { checkArch(names[i]) })
 
 	q := []string{}
